@@ -4,6 +4,7 @@ package commonmark
 
 import (
 	"bytes"
+	"os"
 	"unicode/utf8"
 	"unsafe"
 )
@@ -66,8 +67,12 @@ func assume(b bool) {
 	}
 }
 
+// vTwin: vacuity twin (vcheck twin): every check reached counts as failed, which
+// shows that the assertion is reachable under the harness's assumptions.
+var vTwin = os.Getenv("VERIF_TWIN") != ""
+
 func check(b bool, clause string) {
-	if !b {
+	if !b || vTwin {
 		vst.failed = append(vst.failed, clause)
 	}
 }
